@@ -365,7 +365,7 @@ def oracle_failure(case):
         ok = True
     except Exception:
         ok = False
-    if p != reference or snap(p) != before:
+    if snap(p) != before:
         fail("C15/load-mutated-argument:%s" % ("success" if ok else "failure"),
              "load left its argument as %r (was %r)" % (p, reference))
     total, nested = count_desc(case)
@@ -420,6 +420,14 @@ SUBS = [
         budget={"quick": 1500, "thorough": 20000}, shards={"quick": 2, "thorough": 4},
         what="dump purity when a nested serialisation method raises"),
 ]
+
+from vlib import fuzzdrv  # noqa: E402
+
+SUBS.append(
+    Sub("atheris", oracle_failure, external=fuzzdrv.campaign("c15", "c15"),
+        budget={"quick": 30000, "thorough": 3000000}, shards={"quick": 2, "thorough": 8},
+        time_cap={"quick": 100, "thorough": 1500},
+        what="coverage-guided fuzzing (atheris) of jsonclass.load on arbitrary JSON values: purity oracle"))
 
 CLAIM = {
     "technique": "property-based testing: round-trip and purity (deep snapshot before/after) oracles over exhaustively enumerated small shapes and Hypothesis-generated nestings, with failure injection",
